@@ -542,6 +542,10 @@ type ccWorld struct {
 
 	height int32
 
+	// eager: dispatch historical spends at registration (single-resolver
+	// reproductions only; the generated runs are lazy).
+	eager bool
+
 	// Chain.
 	spent map[wire.OutPoint]*chainntnfs.SpendDetail
 	// remoteClaim: outpoints the peer spends with the preimage as soon as
@@ -760,7 +764,7 @@ func (n *ccNotifier) RegisterSpendNtfn(op *wire.OutPoint, _ []byte,
 	// at once; do the same for registrations made inside Launch, which
 	// only offers inputs to the sweeper afterwards (no durable effect),
 	// so the schedule stays deterministic.
-	if d, ok := w.spent[*op]; ok && inLaunch && !n.inc.dead {
+	if d, ok := w.spent[*op]; ok && (inLaunch || w.eager) && !n.inc.dead {
 		sub.delivered = true
 		sub.ch <- d
 	}
@@ -1146,7 +1150,8 @@ func (w *ccWorld) pumpOne(inc *ccInc) string {
 						{0x30}, r.pre, ccSuccessScript,
 					}
 				} else {
-					wit = wire.TxWitness{{0x30}, {}}
+					// <sig> <0> <witness script>
+					wit = wire.TxWitness{{0x30}, {}, {0x51}}
 				}
 				tx := ccSweepTx(r.op, wit)
 				if r.reqOut != nil {
